@@ -176,6 +176,15 @@ class SplittingStage(Contract):
         yield 'new-cores-fresh-or-own-slot', FA(0, d, lambda j: z3.Or(lst_get(t.cores, j).buf >= S.mark0, lst_get(t.cores, j).buf == lst_get(t0.cores, j).buf))
         yield 'interior-ranks<=max(max_rank, old)', FA(1, d, lambda j: z3.Or(cap_ok(lst_get(t.ranks, j), S.o['max_rank']), lst_get(t.ranks, j) == lst_get(t0.ranks, j)))
 
+    def lemmas(self, S, res):
+        # core buffers never get older: whatever watermark bounded them from below before the stage still does afterwards
+        t, t0 = S.a['tmp'], S.o['tmp']
+        d = zi(t0.order)
+        marks = [S.state.ctx.mark0] + list(getattr(S.state, 'loop_marks', []))[-2:]
+        for q, m in enumerate(marks):
+            yield 'core-buffers-not-older[%d]' % q, z3.Implies(z3.And(m <= S.mark0, FA(0, d, lambda j: lst_get(t0.cores, j).buf >= m)),
+                                                             FA(0, d, lambda j: lst_get(t.cores, j).buf >= m))
+
     def canary(self, S, res):
         return lst_get(S.a['tmp'].ranks, 0) == 2
 
